@@ -827,7 +827,390 @@ def replay_o_bundled_aliases(**kw):
         raise Fail("bundled database: " + repr(r["failure"]))
 
 
+# ----------------------------------------------------------------------------------------------- helpers (extension 2)
+
+# Every helper kind of HelperTypes (+ 'unknown' = UnknownHelper).  A kind has a list of argument FORMS (the accepted argument
+# counts); a form is a tuple of positions; a position is (class, alternatives): class 'n' = numeric / vector / colour text that
+# the code hands to float() (C code: concrete, exactly representable in 6 significant digits), class 's' = a string the code
+# only stores or compares (may be replaced by the symbolic string).  For every optional argument the alternatives contain the
+# default value AND a non-default value; uninterpreted keys get a distinct name per position (a swap is visible).
+def _S(*alts):
+    return ("s", list(alts))
+
+
+def _N(*alts):
+    return ("n", list(alts))
+
+
+_H_VEC = _N("-8 -8 -8", "8 8 16", "0.5 -0.25 0")
+_H_VEC2 = _N("8 8 8", "-16 0 4")
+_H_COL = _N("255 255 255", "255 128 0", "0.5 0 1")             # sphere: 255 255 255 is the default colour
+_H_PITCH_F = _N("-1", "1", "0.5")                                # frustum default -1
+_H_PITCH_L = _N("1", "-1", "0.5")                                # lightcone default 1
+_H_LINE3 = (_N("255 128 0", "0.5 0 1"), _S("k_start"), _S("v_start"))
+HELPER_FORMS = {
+    "base": [()],                                                # HelperInherit: direct route only (EntityDef special-cases base())
+    "halfgridsnap": [()],
+    "size": [(_H_VEC,), (_H_VEC, _H_VEC2)],
+    "bbox": [(_H_VEC,), (_H_VEC, _H_VEC2)],
+    "color": [(_H_COL,)],
+    "sphere": [(), (_S("radius", "k_dist"),), (_S("radius", "k_dist"), _H_COL)],
+    "line": [_H_LINE3, _H_LINE3 + (_S("k_end"), _S("v_end"))],
+    "frustum": [(), (_S("_fov", "k_fov", "90"),), (_S("_fov", "90"), _S("_nearplane", "4")),
+                (_S("_fov", "90"), _S("_nearplane", "4"), _S("_farz", "1024.5")),
+                (_S("_fov", "90"), _S("_nearplane", "4"), _S("_farz", "1024.5"), _S("_light", "k_col", "255 128 0")),
+                (_S("_fov", "k_fov", "90"), _S("_nearplane", "4"), _S("_farz", "1024.5"), _S("_light", "k_col", "255 128 0"), _H_PITCH_F)],
+    "cylinder": [_H_LINE3, _H_LINE3 + (_S("r_start"),), _H_LINE3 + (_S("r_start"), _S("k_end"), _S("v_end")),
+                 _H_LINE3 + (_S("r_start"), _S("k_end"), _S("v_end"), _S("r_end"))],
+    "origin": [(), (_S("origin", "k_pos"),)],
+    "vecline": [(), (_S("origin", "k_pos"),)],
+    "sidelist": [(), (_S("sides", "k_faces"),)],
+    "wirebox": [(_S("k_min"), _S("k_max"))],
+    "sweptplayerhull": [()],
+    "obb": [(_S("k_min"), _S("k_max"))],
+    "iconsprite": [(), (_S("editor/light.vmt", "sprites/glow01"),)],
+    "studio": [(), (_S("models/editor/axis.mdl", "models/a b.mdl"),)],
+    "studioprop": [(), (_S("models/editor/axis.mdl"),)],
+    "lightprop": [(), (_S("models/editor/spot.mdl"),)],
+    "sprite": [(), (_S("sprites/glow01.vmt"),)],
+    "instance": [()], "decal": [()], "overlay": [()], "overlay_transition": [()], "light": [()],
+    "lightcone": [(), (_S("_inner_cone", "k_in"),), (_S("_inner_cone", "k_in"), _S("_cone", "k_out")),
+                  (_S("_inner_cone", "k_in"), _S("_cone", "k_out"), _S("_light", "k_col")),
+                  (_S("_inner_cone", "k_in"), _S("_cone", "k_out"), _S("_light", "k_col"), _H_PITCH_L)],
+    "keyframe": [(), (_S("k_name"),)],
+    "animator": [()], "quadbounds": [()], "worldtext": [()], "catapult": [()],
+    "lightconenew": [(_S("k_theta"), _S("k_phi"), _S("k_col"))],
+    "appliesto": [(), (_S("P2"),), (_S("P2", "+srctools"), _S("!CSGO"))],
+    "orderby": [(), (_S("beta"),), (_S("beta", "Alpha"), _S("alpha", "gamma"))],
+    "autovis": [(_S("World"),), (_S("Auto", "auto", "World"), _S("Custom")), (_S("Auto", "World"), _S("Custom"), _S("Sub"))],
+    "unknown": [(), (_S("1"),), (_S("1"), _S("two"))],
+}
+# frustum: every argument goes through float() / split()+float() -> no symbolic slot there (all by index)
+HELPER_NOSLOT = ("frustum",)
+# text route: names the exporter / parser hash (dict keys): by index only
+HELPER_TEXT_NOSLOT = ("frustum", "orderby", "autovis")
+HELPER_NOARG = [k for k, v in HELPER_FORMS.items() if v == [()] and k != "base"]
+HELPER_KINDS = list(HELPER_FORMS)
+_HTABLE_OK = []
+
+
+def _helper_table_check():
+    """The table must name EVERY helper type of the tree under test (a new HelperTypes member = harness error, not silence)."""
+    from srctools.fgd import HelperTypes, HELPER_IMPL
+    want = set([t.value for t in HelperTypes])
+    if set(HELPER_FORMS) - set(["unknown"]) != want or set(HELPER_IMPL) != set(HelperTypes):
+        import sys
+        print("HARNESS-ERROR helper table does not match HelperTypes:", sorted(want ^ (set(HELPER_FORMS) - set(["unknown"]))), file=sys.stderr)
+        raise SystemExit(2)
+
+
+def _hparse(kind, args):
+    from srctools.fgd import HelperTypes, HELPER_IMPL, UnknownHelper
+    if kind == "unknown":
+        return UnknownHelper("mystery", list(args))
+    return HELPER_IMPL[HelperTypes(kind)].parse(list(args))
+
+
+def _hfields(h):
+    import attrs
+    if attrs.has(type(h)):
+        return [(a.name, getattr(h, a.name)) for a in attrs.fields(type(h))]
+    return sorted(vars(h).items())
+
+
+def _cmp_helper(a, b, where):
+    """b must be the same helper as a: same class, every field of the same kind and equal, ==, and not !=."""
+    check(type(a) is type(b), where + ": helper class", a, b)
+    fa, fb = _hfields(a), _hfields(b)
+    check(len(fa) == len(fb), where + ": field count", fa, fb)
+    for (na, va), (nb, vb) in zip(fa, fb):
+        check(na == nb, where + ": field names", na, nb)
+        check((va is None) == (vb is None) and isinstance(va, str) == isinstance(vb, str)
+              and isinstance(va, float) == isinstance(vb, float), where + ": kind of field " + na, va, vb)
+        check(va == vb, where + ": field " + na, va, vb)
+    check(a == b, where + ": helpers compare unequal", a, b)
+    check(not (a != b), where + ": != holds for equal helpers", a, b)
+
+
+def _cmp_args(x, y, where):
+    check(len(x) == len(y), where + ": argument count", x, y)
+    for p, q in zip(x, y):
+        check(isinstance(p, str) and isinstance(q, str) and p == q, where + ": argument", x, y)
+
+
+def _helper_args(kinds, k_i, f_i, idx, s, p_i, slot, n, text, pos=-1):
+    """(kind, argument list) from the table: kind, form and every alternative by symbolic index; with `slot` one 's'
+    position (symbolic index p_i) holds the symbolic string s of exact length n."""
+    kind_list = kinds.split(",")
+    # pick() maps every index outside 0..len-2 to the last element: no range assumptions needed (no wasted paths), unused
+    # indices are never looked at
+    kind = pick(kind_list, k_i)
+    forms = HELPER_FORMS[kind]
+    form = pick(forms, f_i)
+    assume(len(s) == n)
+    p = -1
+    if slot:
+        assume(kind not in (HELPER_TEXT_NOSLOT if text else HELPER_NOSLOT))
+        spos = [j for j in range(len(form)) if form[j][0] == "s"]
+        assume(len(spos) > 0)
+        if pos >= 0:                       # big kinds: one slice per position
+            assume(pos < len(spos))
+            p = spos[pos]
+        else:
+            p = pick(spos, p_i)
+    args = []
+    for j in range(len(form)):
+        args.append(s if j == p else pick(form[j][1], idx[j]))
+    # `name()` means "no arguments": the header parser never hands over a lone empty argument
+    assume(not (len(args) == 1 and len(args[0]) == 0))
+    return kind, args
+
+
+def _helper_direct(kind, args):
+    h = _hparse(kind, args)
+    args2 = h.export()
+    check(isinstance(args2, list), "export() is not a list", args2)
+    args2 = list(args2)
+    h2 = _hparse(kind, args2)
+    _cmp_helper(h, h2, kind + " parse(export(parse(args)))")
+    _cmp_args(args2, h2.export(), kind + " second export")
+    return h
+
+
+def _textable(a):
+    """What `name(a, b)` can carry: the parser splits at ',' and strips every argument; '(' cannot nest, ')' ends the list."""
+    return (a.strip() == a) and all([(c != ',') & (c != '(') & (c != ')') for c in a])
+
+
+def _helper_text(kind, h, cs):
+    """The helper between two fixed ones on an entity: FGD.export -> pieces -> FGD.parse_file -> same helpers, same text again."""
+    from srctools.fgd import KVDef, ValueTypes, UnknownHelper, HelperTypes, HELPER_IMPL
+    f, e = _one_ent("POINT", "helper_ent")
+    pre = HELPER_IMPL[HelperTypes.CUBE].parse(["-8 -8 -8", "8 8 8"])
+    post = UnknownHelper("tailmark", ["z"])
+    e.helpers.extend([pre, h, post])
+    _add_kv(e, KVDef("alpha", ValueTypes.INT, "Alpha", "1", ""))
+    _add_kv(e, KVDef("beta", ValueTypes.STRING, "Beta", "b", ""))
+    parts = _export(f, cs, True)
+    g = _parse(parts)
+    ge = g.entities["helper_ent"]
+    want = [pre, h, post]
+    if kind == "autovis" or (h.IS_EXTENSION and not cs):
+        want = [pre, post]                  # autovis() is parse-only sugar for @AutoVisGroup; extensions need custom syntax
+    check(len(ge.helpers) == len(want), kind + " helper count after the text round trip", want, ge.helpers)
+    for x, y in zip(want, ge.helpers):
+        _cmp_helper(x, y, kind + " after the text round trip")
+        _cmp_args(x.export(), y.export(), kind + " export after the text round trip")
+    if isinstance(h, UnknownHelper):
+        check(ge.helpers[1].name == "mystery", "unknown helper name", ge.helpers[1].name)
+    check(sorted(ge.keyvalues) == ["alpha", "beta"], kind + " keyvalues", list(ge.keyvalues))
+    if kind == "autovis":
+        if cs:
+            path = h.export()
+            for par, name in zip(path, path[1:]):
+                vis = g.auto_visgroups.get(name.casefold())
+                check(vis is not None and "helper_ent" in vis.ents and vis.name == name, "autovis() group", name, par)
+        else:
+            check(not g.auto_visgroups, "autovis() written without custom syntax", list(g.auto_visgroups))
+        return
+    parts2 = _export(g, cs, True)
+    check(len(parts) == len(parts2), kind + ": second export differs (piece count)", parts, parts2)
+    for i in range(len(parts)):
+        check(parts[i] == parts2[i], kind + ": second export differs from the first", parts[i], parts2[i])
+
+
+def h_helper(s: str, k_i: int, f_i: int, p_i: int, i0: int, i1: int, i2: int, i3: int, i4: int, i5: int, i6: int, cs: bool,
+             kinds: str, slot: bool, n: int, text: bool, pos: int = -1) -> None:
+    """Every helper kind: parse -> export -> parse is the same helper and export a fixed point (text=False); the same
+    through the real FGD text (text=True), custom_syntax symbolic."""
+    if not _HTABLE_OK:
+        with _untraced():
+            _helper_table_check()
+            if _TRACED[0]:
+                # a numeric argument cut out of the piece that also holds the symbolic argument is a string proxy with concrete
+                # characters: de-proxy it for the C float() (vf/stubs/floatstub.py) instead of CrossHair's symbolic-real model
+                from vf.stubs.floatstub import stub_float
+                stub_float(modules=("srctools.math", "srctools._fgd_helpers"))
+        _HTABLE_OK.append(True)
+    kind, args = _helper_args(kinds, k_i, f_i, [i0, i1, i2, i3, i4, i5, i6], s, p_i, slot, n, text, pos)
+    if not text:
+        assume(cs)
+        _helper_direct(kind, args)
+        return
+    assume(kind != "base")
+    for a in args:
+        assume(_textable(a))
+    h = _helper_direct(kind, args)
+    ex = h.export()
+    assume(not (len(ex) == 1 and len(ex[0]) == 0))       # ... nor can the text carry one (`sphere()` reads as no arguments)
+    _helper_text(kind, h, cs)
+
+
+def h_helper_witness(s: str, k_i: int, f_i: int, p_i: int, i0: int, i1: int, i2: int, i3: int, i4: int, i5: int, i6: int, cs: bool,
+                     kinds: str, slot: bool, n: int, text: bool, pos: int = -1) -> None:
+    h_helper(s, k_i, f_i, p_i, i0, i1, i2, i3, i4, i5, i6, cs, kinds, slot, n, text, pos)
+    raise Fail("reached")
+
+
+# ----------------------------------------------------------------------------------------------- binary format: flags, types, tags
+
+BIN_POWERS = list(range(32)) + [126, 127]          # every bit index 0..23 (and up to 31), plus the top of the 7-bit field
+BIN_POWERS2 = [0, 5, 23]
+
+
+def _cmp_flags(kv, o, w):
+    check(o.val_list is not None and len(o.val_list) == len(kv.val_list), w + " flag count", o.val_list)
+    for x, y in zip(kv.val_list, o.val_list):
+        check(len(y) == 4, w + " flag entry shape", y)
+        check(x[0] == y[0], w + " flag bit", x, y)
+        check(x[1] == y[1], w + " flag name", x, y)
+        check(isinstance(y[2], bool) and x[2] == y[2], w + " flag default", x, y)
+        check(y[3] == frozenset(), w + " flag tags", y)
+
+
+def _cmp_binkv(kv, o, w):
+    from srctools.fgd import ValueTypes
+    check(o.name == kv.name, w + " name", o.name)
+    check(o.disp_name == kv.disp_name, w + " display name", o.disp_name)
+    check(o.type is kv.type, w + " type", o.type, kv.type)
+    check(isinstance(o.readonly, bool) and o.readonly == kv.readonly, w + " readonly", o.readonly, kv.readonly)
+    check(o.desc == "" and o.reportable is False, w + " description / report flag are not stored", o.desc, o.reportable)
+    if kv.type is ValueTypes.SPAWNFLAGS:
+        check(o.default == "", w + " spawnflags default", o.default)
+        _cmp_flags(kv, o, w)
+    else:
+        check(o.default == kv.default, w + " default", o.default, kv.default)
+        check(o.val_list is None, w + " value list", o.val_list)
+
+
+def h_binkv(vt_i: int, b_i: int, b2_i: int, ro: bool, d1: bool, d2: bool, d3: bool, v_i: int, mode: str) -> None:
+    """kv_serialise/kv_unserialise, iodef_serialise/iodef_unserialise and ent_serialise/ent_unserialise called directly on
+    a real string table.  mode 'flags': a spawnflags keyvalue whose first flag has bit index b (every index 0..31, 126,
+    127 by symbolic index: math.log2 is C code) and whose default bits are symbolic; 'types': EVERY ValueTypes member as
+    keyvalue and I/O type; 'refuse': what the format cannot hold (choices list, tags on a keyvalue / input / output /
+    flag) must be refused with ValueError, never written as something else."""
+    import srctools._engine_db as edb
+    from srctools.fgd import EntityDef, EntityTypes, KVDef, IODef, ValueTypes
+    make_file = edb.io.BytesIO
+    none = frozenset()
+    types = list(ValueTypes)
+    assume(0 <= vt_i < len(types) and 0 <= b_i < len(BIN_POWERS) and 0 <= b2_i < len(BIN_POWERS2) and 0 <= v_i < 6)
+    if mode != "types":
+        assume(vt_i == 0)
+    if mode != "flags":
+        assume(b_i == 0 and b2_i == 0)
+    if mode != "refuse":
+        assume(v_i == 0)
+    vt = pick(types, vt_i)
+    bit = 1 << pick(BIN_POWERS, b_i)
+    bit2 = 1 << pick(BIN_POWERS2, b2_i)
+    flags = [(bit, "Flag A", d1, none), (bit2, "Flag B", d2, none), (1 << 9, "Flag C", d3, none)]
+    e = EntityDef(EntityTypes.POINT, "bin_ent")
+    if mode == "refuse":
+        variant = pick(["choices", "kv_tag", "kv_two", "in_tag", "out_tag", "flag_tag"], v_i)
+        tg = frozenset(["TAG"])
+        kv = KVDef("thekey", ValueTypes.INT, "The Key", "3", "")
+        sf = KVDef("spawnflags", ValueTypes.SPAWNFLAGS, "spawnflags", "", "", flags)
+        if variant == "choices":
+            kv = KVDef("thekey", ValueTypes.CHOICES, "The Key", "0", "", [("0", "Off", none), ("1", "On", none)])
+        if variant == "flag_tag":
+            sf = KVDef("spawnflags", ValueTypes.SPAWNFLAGS, "spawnflags", "", "", [(bit, "Flag A", d1, tg)])
+        e.keyvalues["thekey"] = {(tg if variant == "kv_tag" else none): kv}
+        if variant == "kv_two":
+            e.keyvalues["thekey"][tg] = KVDef("thekey", ValueTypes.STRING, "Tagged", "x", "")
+        e.keyvalues["spawnflags"] = {none: sf}
+        e.inputs["enable"] = {(tg if variant == "in_tag" else none): IODef("Enable", ValueTypes.VOID)}
+        e.outputs["onuse"] = {(tg if variant == "out_tag" else none): IODef("OnUse", ValueTypes.VOID)}
+        try:
+            edb.ent_serialise(e, make_file(), lambda st: b"\0\0")
+        except ValueError:
+            return
+        raise Fail("ent_serialise accepted a definition the format cannot hold: " + variant)
+    if vt is ValueTypes.SPAWNFLAGS or mode == "flags":
+        kv = KVDef("spawnflags", ValueTypes.SPAWNFLAGS, "spawnflags", "", "", flags, ro, False)
+    elif vt is ValueTypes.CHOICES:
+        kv = KVDef("thekey", vt, "The Key", "0", "", [("0", "Off", none)], ro, False)
+    else:
+        kv = KVDef("thekey", vt, "The Key", "12", "a description that is not stored", None, ro, True)
+    io_in = IODef("SetValue", vt, "not stored")
+    io_out = IODef("OnValue", vt)
+    # --- kv_serialise / kv_unserialise, iodef_serialise / iodef_unserialise directly
+    strings = ["spawnflags", "thekey", "The Key", "Flag A", "Flag B", "Flag C", "12", "0", "", "SetValue", "OnValue", "bin_ent"]
+    dic = edb.BinStrDict(strings, None)
+    fd = make_file()
+    dic.serialise(fd)
+    refused = False
+    try:
+        edb.kv_serialise(kv, fd, dic)
+    except ValueError:
+        refused = True
+    check(refused == (vt is ValueTypes.CHOICES and mode == "types"), "kv_serialise refusal", vt, refused)
+    if not refused:
+        edb.iodef_serialise(io_in, fd, dic)
+        edb.iodef_serialise(io_out, fd, dic)
+        fr = make_file(fd.getvalue())
+        _inv, from_dict = edb.BinStrDict.unserialise(fr, [])
+        o = edb.kv_unserialise(fr, from_dict)
+        _cmp_binkv(kv, o, "kv_unserialise")
+        for io in (io_in, io_out):
+            r = edb.iodef_unserialise(fr, from_dict)
+            check(r.name == io.name and r.type is io.type and r.desc == "", "iodef_unserialise", r, io)
+        check(fr.read(1) == b"", "trailing bytes after kv + io")
+    # --- the same inside an entity
+    if not refused:
+        e.keyvalues[kv.name] = {none: kv}
+        e.keyvalues["after"] = {none: KVDef("after", ValueTypes.INT, "After", "7", "")}
+    e.inputs["setvalue"] = {none: io_in}
+    e.outputs["onvalue"] = {none: io_out}
+    strings2 = strings + ["after", "After", "7"]
+    dic2 = edb.BinStrDict(strings2, None)
+    fe = make_file()
+    dic2.serialise(fe)
+    edb.ent_serialise(e, fe, dic2)
+    fr = make_file(fe.getvalue())
+    _inv, from_dict = edb.BinStrDict.unserialise(fr, [])
+    r = edb.ent_unserialise(fr, "bin_ent", from_dict)
+    check(fr.read(1) == b"", "trailing bytes after the entity")
+    check(list(r.keyvalues) == list(e.keyvalues), "entity keyvalue names", list(r.keyvalues))
+    for name, tmap in e.keyvalues.items():
+        check(list(r.keyvalues[name]) == [none], "entity keyvalue tag sets", list(r.keyvalues[name]))
+        _cmp_binkv(tmap[none], r.keyvalues[name][none], "ent_unserialise " + name)
+    for ma, mb in ((e.inputs, r.inputs), (e.outputs, r.outputs)):
+        check(list(ma) == list(mb), "entity io names", list(mb))
+        for name, tmap in ma.items():
+            o = mb[name][none]
+            check(o.name == tmap[none].name and o.type is tmap[none].type, "entity io", o, tmap[none])
+
+
+def h_binkv_witness(vt_i: int, b_i: int, b2_i: int, ro: bool, d1: bool, d2: bool, d3: bool, v_i: int, mode: str) -> None:
+    h_binkv(vt_i, b_i, b2_i, ro, d1, d2, d3, v_i, mode)
+    raise Fail("reached")
+
+
 # ----------------------------------------------------------------------------------------------- obligations
+
+def _helper_slices(q):
+    """text route: one slice per kind with arguments (no-argument kinds share one slice), x {no symbolic string, symbolic
+    string of length 0, 1 (thorough 2)} in one 's' position chosen by symbolic index."""
+    direct, text = [], []
+    allk = ",".join(HELPER_KINDS)
+    direct.append({"kinds": allk, "slot": False, "n": 0, "text": False})
+    for n in ((0, 1) if q else (0, 1, 2)):
+        direct.append({"kinds": allk, "slot": True, "n": n, "text": False})
+    text.append({"kinds": ",".join(HELPER_NOARG), "slot": False, "n": 0, "text": True})
+    for k in HELPER_KINDS:
+        if k in HELPER_NOARG or k == "base":
+            continue
+        text.append({"kinds": k, "slot": False, "n": 0, "text": True})
+        if k not in HELPER_TEXT_NOSLOT:
+            npos = max(len([1 for x in f if x[0] == "s"]) for f in HELPER_FORMS[k])
+            for n in ((0, 1) if q else (0, 1, 2)):
+                if n and npos >= 3:
+                    text += [{"kinds": k, "slot": True, "n": n, "text": True, "pos": pp} for pp in range(npos)]
+                else:
+                    text.append({"kinds": k, "slot": True, "n": n, "text": True})
+    return direct, text
+
 
 def obligations(tier):
     q = tier == "quick"
@@ -926,4 +1309,32 @@ def obligations(tier):
     obls.append(Obl("lazy.order.witness", MOD, "h_lazy_witness", witness=True, slices=[{"nq": 2}], budget_s=300, per_path_s=60))
     obls.append(Obl("lazy.bundled", MOD, "o_bundled_aliases", engine="call", replay="replay_o_bundled_aliases", budget_s=300,
                     desc="concrete supplement: cross-block aliases of the shipped database, both query orders (native)"))
+    # --- extension 2: every helper kind, binary flags / types / refusals
+    direct, text = _helper_slices(q)
+    obls.append(Obl("helpers.direct", MOD, "h_helper", slices=direct, budget_s=900 if q else 3000, per_path_s=40,
+                    desc="every helper kind of HelperTypes + UnknownHelper: h=parse(args); h2=parse(h.export()); h2 == h field by "
+                         "field and h2.export() == h.export(); every accepted argument count, every optional argument with its "
+                         "default and a non-default value",
+                    bound="kind / form / alternatives by symbolic index (enumeration in solver clothing); one string argument "
+                          "symbolic (all code points, exact length 0..1, thorough 2) in a position chosen by symbolic index"))
+    obls.append(Obl("helpers.text", MOD, "h_helper", slices=text, budget_s=900 if q else 3000, per_path_s=60,
+                    desc="the same through the real text: an entity carrying the helper between two others, FGD.export -> pieces -> "
+                         "FGD.parse_file -> same helpers, second export identical; custom_syntax symbolic (extension helpers dropped "
+                         "without it; autovis() lands in the auto-visgroup table)",
+                    bound="as helpers.direct; the symbolic argument restricted to what `name(a, b)` can carry (no ',', '(', ')', "
+                          "no surrounding whitespace, not a lone empty argument)"))
+    obls.append(Obl("helpers.witness", MOD, "h_helper_witness", witness=True, budget_s=300, per_path_s=60,
+                    slices=[{"kinds": "lightcone", "slot": True, "n": 1, "text": True},
+                            {"kinds": "frustum", "slot": False, "n": 0, "text": True},
+                            {"kinds": ",".join(HELPER_KINDS), "slot": True, "n": 1, "text": False}], desc="reachability twin"))
+    obls.append(Obl("bin.kv", MOD, "h_binkv", slices=[{"mode": "flags"}, {"mode": "types"}, {"mode": "refuse"}],
+                    budget_s=900 if q else 3000, per_path_s=60,
+                    desc="kv_serialise/kv_unserialise, iodef_serialise/iodef_unserialise, ent_serialise/ent_unserialise called "
+                         "directly: spawnflags with every bit index 0..31, 126, 127 and symbolic default bits; EVERY ValueTypes "
+                         "member as keyvalue and I/O type (CHOICES keyvalue refused); choices lists and tags on keyvalues / I/O / "
+                         "flags refused with ValueError",
+                    bound="bit index (34) x second bit index (3) / value type (43) / refused shape (6) by symbolic index; readonly "
+                          "and three default bits symbolic"))
+    obls.append(Obl("bin.kv.witness", MOD, "h_binkv_witness", witness=True, slices=[{"mode": "flags"}, {"mode": "types"}],
+                    budget_s=300, per_path_s=60, desc="reachability twin"))
     return obls
